@@ -21,6 +21,14 @@ class CmdMixin(object):
             return
         mine = [f for c, f in st.frames if c == st.conn]
         others = [(c, f) for c, f in st.frames if c != st.conn]
+        from .facts import outside_input_space
+        if outside_input_space(msg):
+            # not judged; the connection's protocol state is unknown from here on (the history drops it next)
+            cm.alive = False
+            cm.sub = None
+            if others:
+                self.flag({"C17", "C02"}, "bind produced frames on other connections", st, {"frames": _short(others)})
+            return
         cls, why = cm.classify(msg)
         st.extra["class"] = (cls, why)
         self.ev["classified_" + cls] += 1
